@@ -11,8 +11,12 @@ RULE = (
     "Hypothesis draws a model family (single-phase flow, mass+energy, momentum, poromechanics, thermoporomechanics) on "
     "the library's 2-d / 3-d test geometries with a random subset of 0-3 fractures (Cartesian; simplex through gmsh in "
     "the thorough tier), random fluid / solid constants (compressible and incompressible fluid, Biot coefficient, "
-    "friction, dilation, thermal expansion ...), a random time step, a state x = x_ref + delta (delta scaled per "
-    "variable, amplitude 1e-2..0.5) and a random previous-time-step state. Discretizations are brought up to date at x "
+    "friction, dilation, thermal expansion ...), in a quarter of the cases the differentiable flux laws DarcysLawAd / "
+    "FouriersLawAd on a TPFA base discretisation (on an MPFA base the library documents the Jacobian as an approximation, "
+    "so it is not generated here), a random time step, a state x = x_ref + delta (delta scaled per "
+    "variable, amplitude 1e-2..0.5) and a random previous-time-step state; the same model instance is taken through 1-3 "
+    "such states in sequence, each checked; the thorough tier adds a 400 / 600-cell fracture (operators with thousands of "
+    "stored entries). Discretizations are brought up to date at x "
     "(before_nonlinear_iteration, i.e. upwind directions follow the state) and then held fixed. Oracle: for a random "
     "direction v, J v = -(b(x+hv) - b(x-hv)) / 2h (b = assembled rhs = -residual), best of h in {1e-5,1e-6,1e-7}, "
     "relative error < 1e-6 per equation block (assembled_equation_indices). A block where central differences disagree "
@@ -28,13 +32,13 @@ LEVEL_NOTE = ("Numerical derivative: errors below 1e-6 relative are invisible; o
               "library's small test geometries; real models are expensive, so case counts are hundreds, not millions.")
 DESIGN_REF = "DESIGN.md section 4, C03"
 ASSUMPTIONS = ["discretization matrices frozen during differencing", "state in the smooth region (non-smooth stencils discarded and counted)"]
-REQUIRED = {}
+REQUIRED = {"states2": 0.15, "states3": 0.15, "ad-flux": 0.08}
 
 
 def strategy(tier):
     if tier == "quick":
-        return model_spec(dims=(2, 2, 2, 2, 2, 3), simplex=False, nonmatching=True, units=True)
-    return model_spec(dims=(2, 2, 3), simplex=True, nonmatching=True, units=True)
+        return model_spec(dims=(2, 2, 2, 2, 2, 3), simplex=False, nonmatching=True, units=True, adflux=("tpfa",))
+    return model_spec(dims=(2, 2, 3), simplex=True, nonmatching=True, units=True, long=12, adflux=("tpfa",))
 
 
 def warmup():
@@ -48,10 +52,23 @@ def warmup():
 
 def check(spec):
     m = build_model(spec)
+    # one model instance is taken through 1-3 states in sequence (as a Newton iteration / time loop does): whatever the
+    # instance remembers from an earlier assembly must not leak into a later one
+    nstates = 1 + spec["pseed"] % 3
+    out = None
+    for s in range(nstates):
+        r = _check_state(m, spec, s)
+        if out is None or not r["labels"][0].startswith("discarded-nonfinite"):
+            out = r
+    out["labels"].append(f"states{nstates}")
+    return out
+
+
+def _check_state(m, spec, s):
     es = m.equation_system
     n = es.num_dofs()
-    x = random_state(m, spec, 0)
-    xt = random_state(m, spec, 1)
+    x = random_state(m, spec, 2 * s)
+    xt = random_state(m, spec, 2 * s + 1)
     es.set_variable_values(xt, time_step_index=0)
     es.set_variable_values(x, iterate_index=0)
     m.before_nonlinear_iteration()
@@ -61,7 +78,7 @@ def check(spec):
         return {"labels": ["discarded-nonfinite-state"], "nontrivial": False}
     blocks = {k: np.array(v) for k, v in es.assembled_equation_indices.items()}
     require(A.shape == (b.size, n), "jacobian-shape", f"{A.shape} vs ({b.size},{n})")
-    rng = np.random.default_rng([spec["pseed"], 7])
+    rng = np.random.default_rng([spec["pseed"], 7, s])
     v = rng.uniform(-1, 1, n)
     jv = A @ v
     xs = max(float(np.abs(x).max()), 1.0)
@@ -92,7 +109,8 @@ def check(spec):
             discarded = True
             continue
         raise Violation("jacobian-" + name, f"equation '{name}': best relative error {best:.3e} over h "
-                        f"(errors {', '.join(f'{e:.2e}' for e in errs.values())}) in model {spec['model']}")
+                        f"(errors {', '.join(f'{e:.2e}' for e in errs.values())}) in model {spec['model']}"
+                        f" (state {s + 1} evaluated on this model instance)")
     if discarded:
         labels.append("discarded-nonsmooth-block")
     nontrivial = len(spec["fracs"]) > 0 or len([1 for i in blocks.values() if i.size]) >= 2
